@@ -86,8 +86,8 @@ func Parse(data []byte) *Archive {
 // NeedsQuote reports whether the given data needs to
 // be quoted before it's included as a txtar file.
 func NeedsQuote(data []byte) bool {
-	_, _, after := findFileMarker(data)
-	return after != nil
+	_, name, _ := findFileMarker(data)
+	return name != ""
 }
 
 // Quote quotes the data so that it can be safely stored in a txtar
